@@ -26,6 +26,12 @@ def run(chk, tier):
         tot[1] += b
         tot[2] += c
     cfgfacts.check_assert_config(chk)
+    # the array references count elements as bytes in every size check (sizeof(length) + size(), begin + N): that is the
+    # accessed footprint only because the validator rejects arrays - including the length="0" element of a data
+    # encoding - whose primitive type is wider than one byte.  Linked G-GUARD instance:
+    import gguard
+    gguard.check(chk, only_prefixes=["sbe_schema_validator::validate_encoding(t) | {}: arrays must have a single-byte type"], effects=False)
+    chk.floor("linked validator guard (single-byte arrays)", chk.rule_counts.get("G-GUARD", 0), 1)
     chk.floor("R-CHK", chk.rule_counts.get("R-CHK", 0), 1500)
     chk.floor("R-CHK.step", chk.rule_counts.get("R-CHK.step", 0), 2)
     chk.floor("BASE.ctor", chk.rule_counts.get("BASE.ctor", 0), 2)
